@@ -367,6 +367,7 @@ Record impl := mkImpl {
   l_equal : L -> L -> res bool;
   l_bytes : L -> res str;
   l_blabels : L -> list label -> list str -> res L;
+  bl_sorts : bool;                (* Builder.Labels sorts b.add and b.del in place (visible to a later Builder.Range) *)
   (* ScratchBuilder: state = (add, output); slicelabels has no output field *)
   sb_cached : bool;               (* Labels() caches a non-empty output; Assign sets output *)
   l_of_adds : list label -> res L (* Labels() on the add slice, no sorting *)
@@ -384,6 +385,7 @@ Definition I_slice : impl := {|
   l_equal := fun a b => Ok (labels_eqb a b);
   l_bytes := fun l => Ok (sl_bytes l);
   l_blabels := fun b a d => Ok (sl_blabels b a d);
+  bl_sorts := false;
   sb_cached := false;
   l_of_adds := fun a => Ok a |}.
 
@@ -399,6 +401,7 @@ Definition I_string : impl := {|
   l_equal := fun a b => Ok (list_eqb Z.eqb a b);
   l_bytes := fun l => Ok l;
   l_blabels := st_blabels;
+  bl_sorts := true;
   sb_cached := true;
   l_of_adds := encode_labels |}.
 
@@ -414,6 +417,7 @@ Definition I_dedupe : impl := {|
   l_equal := fun a b => Ok (labels_eqb a b);
   l_bytes := fun l => Ok (dd_bytes l);
   l_blabels := fun b a d => Ok (dd_blabels b a d);
+  bl_sorts := true;
   sb_cached := true;
   l_of_adds := fun a => Ok a |}.
 
@@ -488,6 +492,12 @@ Definition b_range (b : bstate) : res (list label) :=
   let* r := l_range I (b_base b) in
   Ok (filter (fun l => negb (mem (fst l) (b_del b)) && negb (has_name (fst l) (b_add b))) r ++ b_add b).
 Definition b_labels (b : bstate) : res (L I) := l_blabels I (b_base b) (b_add b) (b_del b).
+(* stringlabels / dedupelabels: slices.SortFunc(b.add), slices.Sort(b.del) happen in place *)
+Definition b_after_labels (b : bstate) : bstate :=
+  match b_del b, b_add b with
+  | [], [] => b
+  | _, _ => if bl_sorts I then mkB (b_base b) (sort_strs (b_del b)) (sort_labels (b_add b)) else b
+  end.
 
 (* ScratchBuilder *)
 Definition s_labels (s : sstate) : res (sstate * L I) :=
@@ -514,7 +524,7 @@ Definition step (m : mstate) (o : op) : res mstate :=
   | OBSet n v => Ok (mkM regs (b_set b n v) s ev)
   | OBDel ns => Ok (mkM regs (b_delete b ns) s ev)
   | OBKeep ns => let* b' := b_keep b ns in Ok (mkM regs b' s ev)
-  | OBLabels r => let* l := b_labels b in Ok (mkM (setreg regs r l) b s ev)
+  | OBLabels r => let* l := b_labels b in Ok (mkM (setreg regs r l) (b_after_labels b) s ev)
   | OBGet n => let* v := b_get b n in Ok (mkM regs b s (EGet v :: ev))
   | OBRange => let* l := b_range b in Ok (mkM regs b s (ERange l :: ev))
   | OSReset => Ok (mkM regs b (mkS [] (l_empty I)) ev)
